@@ -280,3 +280,139 @@ Proof.
     + rewrite Pl1, <- Pl2. reflexivity.
     + eapply plain_none_later with (a := off); eauto. fold buffer. rewrite Pl1, <- Pl2. reflexivity.
 Qed.
+
+(* ------------------------------------------------------------------ the facts finalize() derives are sound (C18) *)
+Lemma starts_with_self_suffix : forall P : list N, is_suffix P P.
+Proof. intros. exists []. reflexivity. Qed.
+
+Theorem facts_sound_model : forall r P compl,
+  wf (r_prog r) = true -> prog_prefix (r_prog r) = (P, compl) -> f_prefix (r_facts r) = P ->
+  (if compl
+   then f_suffix (r_facts r) = P /\ f_min (r_facts r) = len P /\ f_max (r_facts r) = len P
+   else accepted_length_cached (r_prog r) = Some (f_min (r_facts r), f_max (r_facts r)) /\
+        constant_suffix (r_prog r) = Some (f_suffix (r_facts r))) ->
+  facts_sound r.
+Proof.
+  intros r P compl Hwf Hp EP Hc. unfold facts_sound. rewrite EP.
+  split; [intros w Hw; eapply prog_prefix_sound; eauto|].
+  destruct compl.
+  - destruct Hc as [Es [Emn Emx]]. rewrite Es, Emn, Emx.
+    assert (K : forall w, accepts (r_prog r) w -> w = P).
+    { intros w Hw. destruct (prog_prefix_sound _ _ _ _ Hwf Hp Hw) as [_ C]. auto. }
+    split; intros w Hw; rewrite (K _ Hw).
+    + apply starts_with_self_suffix.
+    + split; [apply N.le_refl | intros _; apply N.le_refl].
+  - destruct Hc as [Hl Hs]. split; intros w Hw.
+    + eapply constant_suffix_sound; eauto.
+    + eapply cached_length_sound; eauto.
+Qed.
+
+(* with the guard of fixes/C04-1, an expression with empty-width assertions is scanned plainly and the offset stays *)
+Theorem find_guard_plain : forall F r data off, context_sensitive r = true ->
+  find F true r data off = (plain F r (skipn off data), off).
+Proof. intros F r data off H. unfold find. rewrite H. reflexivity. Qed.
+
+(* before the fix: foo3$ on the payload "foo3 bar" -- the suffix cut lets $ match (program, facts as dumped from the Go code) *)
+Definition rx_foo3_dollar : rx := mkRx
+  (mkProg [ mkInst IFail 0 0 [] []; mkInst IRune1 2 0 [102%N] []; mkInst IRune1 3 0 [111%N] []; mkInst IRune1 4 0 [111%N] [];
+            mkInst IRune1 5 0 [51%N] []; mkInst IEmpty 6 8 [] []; mkInst IMatch 0 0 [] [] ] 1)
+  2 (mkFacts [102; 111; 111; 51]%N [102; 111; 111; 51]%N 4%N 4%N).
+Definition payload_foo3_bar : list N := [102; 111; 111; 51; 32; 98; 97; 114]%N.
+
+Lemma find_unguarded_refuted :
+  plain 100 rx_foo3_dollar payload_foo3_bar = None /\
+  fst (find 100 false rx_foo3_dollar payload_foo3_bar 0) = Some [Some 0; Some 4] /\
+  fst (find 100 true rx_foo3_dollar payload_foo3_bar 0) = None.
+Proof. vm_compute. auto. Qed.
+
+(* ------------------------------------------------------------------ Theorem D: accounting over data sources and negation *)
+Lemma filter_length_le : forall A (f : A -> bool) l, length (filter f l) <= length l.
+Proof. induction l; simpl; auto. destruct (f a); simpl; lia. Qed.
+
+Lemma count_true_le : forall l, count_true l <= length l.
+Proof. intros. unfold count_true. apply filter_length_le. Qed.
+
+Lemma forallb_map : forall A B (f : A -> B) (g : B -> bool) l, forallb g (map f l) = forallb (fun x => g (f x)) l.
+Proof. induction l; simpl; auto. rewrite IHl. reflexivity. Qed.
+Lemma existsb_map : forall A B (f : A -> B) (g : B -> bool) l, existsb g (map f l) = existsb (fun x => g (f x)) l.
+Proof. induction l; simpl; auto. rewrite IHl. reflexivity. Qed.
+Lemma forallb_ext : forall A (f g : A -> bool) l, (forall x, f x = g x) -> forallb f l = forallb g l.
+Proof. induction l; simpl; intros; auto. rewrite H, IHl; auto. Qed.
+
+Lemma count_true_zero : forall l, count_true l = 0 <-> existsb (fun b => b) l = false.
+Proof.
+  induction l as [|[|] l IH]; simpl; unfold count_true in *; simpl.
+  - tauto.
+  - split; [lia | discriminate].
+  - exact IH.
+Qed.
+
+Lemma count_true_all : forall l, count_true l = length l <-> forallb (fun b => b) l = true.
+Proof.
+  induction l as [|[|] l IH]; simpl; unfold count_true in *; simpl.
+  - tauto.
+  - rewrite <- IH. split; lia.
+  - pose proof (filter_length_le bool (fun b : bool => b) l). split; [lia | discriminate].
+Qed.
+
+Lemma decide_spec : forall inv bs, bs <> [] ->
+  decide inv bs = if inv then forallb (fun b => b) bs else existsb (fun b => b) bs.
+Proof.
+  intros inv bs Hne. unfold decide.
+  assert (Hlen : length bs > 0) by (destruct bs; [congruence | simpl; lia]).
+  pose proof (count_true_le bs) as Hle.
+  destruct (existsb (fun b => b) bs) eqn:EX; destruct (forallb (fun b => b) bs) eqn:FA.
+  - apply count_true_all in FA. rewrite FA.
+    destruct (Nat.eqb_spec (length bs) 0); [lia|]. rewrite Nat.sub_diag. simpl. destruct inv; reflexivity.
+  - assert (N0 : count_true bs <> 0) by (intros E; apply count_true_zero in E; congruence).
+    assert (NA : count_true bs <> length bs) by (intros E; apply count_true_all in E; congruence).
+    destruct (Nat.eqb_spec (count_true bs) 0); [contradiction|].
+    destruct (Nat.eqb_spec (length bs - count_true bs) 0); [lia|]. destruct inv; reflexivity.
+  - apply count_true_all in FA. assert (Z : count_true bs = 0) by (apply count_true_zero; exact EX). lia.
+  - assert (Z : count_true bs = 0) by (apply count_true_zero; exact EX). rewrite Z. simpl. destruct inv; reflexivity.
+Qed.
+
+Fixpoint forallb_idx {A} (g : A -> nat -> bool) (k : nat) (l : list A) : bool :=
+  match l with [] => true | x :: r => g x k && forallb_idx g (S k) r end.
+
+Lemma forallb_combine_seq : forall A B (g : A * B -> bool) (h : nat -> B) (l : list A) k,
+  forallb g (List.combine l (map h (seq k (length l)))) = forallb_idx (fun x i => g (x, h i)) k l.
+Proof. induction l; intros k; simpl; auto. rewrite IHl. reflexivity. Qed.
+
+Lemma forallb_idx_ext : forall A (g1 : A -> nat -> bool) (g2 : A -> bool) (l pre : list A),
+  (forall i x, nth_error (pre ++ l) i = Some x -> length pre <= i -> g1 x i = g2 x) ->
+  forallb_idx g1 (length pre) l = forallb g2 l.
+Proof.
+  induction l as [|x l IH]; intros pre H; simpl; auto.
+  rewrite (H (length pre) x).
+  - f_equal. replace (S (length pre)) with (length (pre ++ [x])) by (rewrite app_length; simpl; lia).
+    apply IH. intros i y Hn Hi. apply H; [rewrite <- app_assoc in Hn; exact Hn | rewrite app_length in Hi; simpl in Hi; lia].
+  - rewrite nth_error_app2 by lia. rewrite Nat.sub_diag. reflexivity.
+  - lia.
+Qed.
+
+(* If, on every evaluated source, the loop leaves every condition in the state the plain scan prescribes,
+   the filter selects exactly the streams of the specification. *)
+Theorem conj_accounting : forall F guard tbl cn cs st,
+  (forall s ci c, In s (sources_of cn st) -> nth_error cs ci = Some c ->
+     match nth_error (source_eval F guard tbl cs s) ci with
+     | Some p => cond_success c p = cond_holds_spec F tbl c s
+     | None => False
+     end) ->
+  conj_selected F guard tbl cn cs st = conj_spec F tbl cn cs st.
+Proof.
+  intros F guard tbl cn cs st H. unfold conj_selected, conj_spec.
+  destruct (sources_of cn st) as [|s0 srcs] eqn:ES.
+  - apply forallb_ext. intros c. destruct (c_inv c); reflexivity.
+  - set (all := s0 :: srcs) in *.
+    rewrite forallb_combine_seq.
+    change 0 with (length (@nil cond)).
+    apply forallb_idx_ext. intros i c Hn _. simpl in Hn. simpl fst. simpl snd.
+    assert (M : cond_results F guard tbl cs all i = map (cond_holds_spec F tbl c) all).
+    { unfold cond_results. rewrite map_map. apply map_ext_in. intros s Hs. rewrite Hn.
+      specialize (H s i c Hs Hn). destruct (nth_error (source_eval F guard tbl cs s) i); [auto | contradiction]. }
+    rewrite M. rewrite decide_spec by (unfold all; simpl; discriminate).
+    destruct (c_inv c).
+    + rewrite forallb_map. reflexivity.
+    + rewrite existsb_map. reflexivity.
+Qed.
